@@ -1,11 +1,13 @@
 (** C14 -- field resolution never returns a value that contradicts a supplied field.
     Theorem-only file: every statement is closed by [exact] of a lemma of Proofs/C14.v.
-    Theorems named [*_modulo_date] take the two facts about the NaiveDate constructors
-    ([Fact_from_ymd], [Fact_from_isoywd]: statements belonging to Proofs/Date.v) as visible premises. *)
+    [Fact_from_ymd] is proved (C14_fact_from_ymd, from the shared calendar lemmas); the facts about
+    the ISO-week functions of Model/Date.v ([Fact_from_isoywd], [Fact_iso_week_total],
+    [Fact_isoywd_total], [Fact_isoywd_roundtrip]: statements belonging to Proofs/Date.v, not available
+    yet) are visible premises of the theorems named [*_modulo_isoywd] / [*_modulo_iso]. *)
 From Coq Require Import ZArith List Bool.
 From V Require Import Base.Int Base.IO Model.TimeDelta.
 From V Require Model.Date Model.Time.
-From V Require Import Model.DateTime Model.Parsed Proofs.C14.
+From V Require Import Spec.Gregorian Model.DateTime Model.Parsed Proofs.C08Sweeps Proofs.C14 Proofs.C14Date.
 Import ListNotations.
 Open Scope Z_scope.
 
@@ -157,36 +159,87 @@ Theorem C14_verify_ordinal_checks : forall p d, verify_ordinal p d = Val true ->
 Proof. exact verify_ordinal_true. Qed.
 Print Assumptions C14_verify_ordinal_checks.
 
+(** the year-month-day constructor fact, proved from the shared calendar lemmas *)
+Theorem C14_fact_from_ymd : forall y m d dt,
+  in_i32 y = true -> 0 <= m <= u32_max -> 0 <= d <= u32_max ->
+  Date.from_ymd_opt y m d = Val (Some dt) ->
+  Date.d_year dt = y /\ Date.d_month dt = Val m /\ Date.d_day dt = Val d.
+Proof. exact fact_from_ymd. Qed.
+Print Assumptions C14_fact_from_ymd.
+
 (** SOUNDNESS of to_naive_date: the returned date agrees with every supplied date field
     (year, century, two-digit year -- the latter two only exist for years >= 0 --, their ISO
     counterparts, quarter, month, both week numbers, ISO week, weekday, ordinal, day). *)
-Theorem C14_to_naive_date_sound_modulo_date : Fact_from_ymd -> Fact_from_isoywd ->
+Theorem C14_to_naive_date_sound_modulo_isoywd : Fact_from_isoywd ->
   forall p d, date_fields_typed p -> to_naive_date p = Val (Ok d) -> date_sound p d.
-Proof. exact to_naive_date_sound_modulo_date. Qed.
-Print Assumptions C14_to_naive_date_sound_modulo_date.
+Proof. exact to_naive_date_sound_modulo_isoywd. Qed.
+Print Assumptions C14_to_naive_date_sound_modulo_isoywd.
 
 (** SOUNDNESS of to_naive_datetime_with_offset, both paths (from date and time fields with the
     timestamp cross-check; from the timestamp with the fields cross-checked). *)
-Theorem C14_to_naive_datetime_sound_modulo_date : Fact_from_ymd -> Fact_from_isoywd ->
+Theorem C14_to_naive_datetime_sound_modulo_isoywd : Fact_from_isoywd ->
   forall p off v, typed p -> in_i32 off = true ->
   to_naive_datetime_with_offset p off = Val (Ok v) ->
   date_sound p (nd_date v) /\ time_sound p (nd_time v) /\ ts_sound p v off.
-Proof. exact to_naive_datetime_sound_modulo_date. Qed.
-Print Assumptions C14_to_naive_datetime_sound_modulo_date.
+Proof. exact to_naive_datetime_sound_modulo_isoywd. Qed.
+Print Assumptions C14_to_naive_datetime_sound_modulo_isoywd.
 
 (** SOUNDNESS of to_datetime and to_datetime_with_timezone (fixed-offset zone): local reading,
     timestamp and offset. *)
-Theorem C14_to_datetime_sound_modulo_date : Fact_from_ymd -> Fact_from_isoywd ->
+Theorem C14_to_datetime_sound_modulo_isoywd : Fact_from_isoywd ->
   forall p z, typed p -> to_datetime p = Val (Ok z) ->
   zoned_sound p z /\ (p_offset p = None -> dz_off z = 0 /\ p_timestamp p <> None).
-Proof. exact to_datetime_sound_modulo_date. Qed.
-Print Assumptions C14_to_datetime_sound_modulo_date.
+Proof. exact to_datetime_sound_modulo_isoywd. Qed.
+Print Assumptions C14_to_datetime_sound_modulo_isoywd.
 
-Theorem C14_to_datetime_with_timezone_sound_modulo_date : Fact_from_ymd -> Fact_from_isoywd ->
+Theorem C14_to_datetime_with_timezone_sound_modulo_isoywd : Fact_from_isoywd ->
   forall p tz z, typed p -> -86400 < tz < 86400 -> to_datetime_with_timezone p tz = Val (Ok z) ->
   zoned_sound p z /\ dz_off z = tz.
-Proof. exact to_datetime_with_timezone_sound_modulo_date. Qed.
-Print Assumptions C14_to_datetime_with_timezone_sound_modulo_date.
+Proof. exact to_datetime_with_timezone_sound_modulo_isoywd. Qed.
+Print Assumptions C14_to_datetime_with_timezone_sound_modulo_isoywd.
+
+(** resolve_week_date (%U / %W forms) for all arguments: value or error kind, never a trap *)
+Theorem C14_resolve_week_date_spec : forall y week wd start,
+  in_i32 y = true -> 0 <= week <= u32_max -> 0 <= wd <= 6 -> 0 <= start <= 6 ->
+  resolve_week_date y week wd start =
+  Val (if week >? 53 then Err OutOfRange
+       else if negb (year_in_range y) then Err OutOfRange
+       else if week_ordinal y week wd start <=? 0 then Err Impossible
+       else if valid_yo y (week_ordinal y week wd start) then Ok (mkdate y (week_ordinal y week wd start))
+       else Err Impossible).
+Proof. exact resolve_week_date_spec. Qed.
+Print Assumptions C14_resolve_week_date_spec.
+
+(** COMPLETENESS of to_naive_date: all supplied fields are those of the date d, each year group is
+    absent or determinate (full year, or century plus two-digit year, or the two-digit year alone
+    for 1970..2069), one documented sufficient combination is present: the result is exactly d. *)
+Theorem C14_to_naive_date_complete_modulo_iso :
+  Fact_iso_week_total -> Fact_isoywd_total -> Fact_isoywd_roundtrip ->
+  forall y o d iw p,
+  repr y o d -> Date.d_iso_week d = Val iw -> typed p -> date_sound p d ->
+  group_ok y (p_year p) (p_year_div_100 p) (p_year_mod_100 p) ->
+  group_ok (Date.iw_year iw) (p_isoyear p) (p_isoyear_div_100 p) (p_isoyear_mod_100 p) ->
+  combination_present y (Date.iw_year iw) p ->
+  to_naive_date p = Val (Ok d).
+Proof. exact to_naive_date_complete_modulo_iso. Qed.
+Print Assumptions C14_to_naive_date_complete_modulo_iso.
+
+(** ABSENCE OF TRAPS in to_naive_date for every typed field state (in particular every state the
+    setters can produce); a returned date is a valid date in range. *)
+Theorem C14_to_naive_date_never_panics_modulo_iso :
+  Fact_iso_week_total -> Fact_isoywd_total -> Fact_isoywd_roundtrip ->
+  forall p, typed p -> exists r, to_naive_date p = Val r /\ forall d, r = Ok d -> is_repr d.
+Proof. exact to_naive_date_total_modulo_iso. Qed.
+Print Assumptions C14_to_naive_date_never_panics_modulo_iso.
+
+Example C14_completeness_hypotheses_inhabited :
+  repr 2014 365 (mkdate 2014 365) /\ typed ex_date_fields /\
+  group_ok 2014 (p_year ex_date_fields) (p_year_div_100 ex_date_fields) (p_year_mod_100 ex_date_fields) /\
+  group_ok 2015 (p_isoyear ex_date_fields) (p_isoyear_div_100 ex_date_fields) (p_isoyear_mod_100 ex_date_fields) /\
+  combination_present 2014 2015 ex_date_fields /\
+  to_naive_date ex_date_fields = Val (Ok (mkdate 2014 365)).
+Proof. exact ex_complete_inhabited. Qed.
+Print Assumptions C14_completeness_hypotheses_inhabited.
 
 Theorem C14_to_fixed_offset_spec : forall p,
   to_fixed_offset p =
